@@ -82,6 +82,16 @@ def search(ctx):
                     why, tag = check(mod, kappa, U, c, e)
                 except Exception as ex:
                     why, tag = 'raised %s: %s' % (type(ex).__name__, ex), None
+                if (not why or tag == 'ubi_eps') and i % 4 == 0:
+                    # a second call with a cell differing in the 5th decimal (lattice-parameter refinement loop): no state may leak
+                    c2 = [x + 2e-5 for x in c[:3]] + [x + 2e-5 for x in c[3:]]
+                    try:
+                        why2, tag2 = check(mod, kappa, U, c2, e)
+                        if why2 and tag2 != 'ubi_eps':
+                            why, tag = 'after a call with a nearly identical cell: ' + why2, tag2
+                            c = c2
+                    except Exception as ex:
+                        why, tag = 'raised %s: %s' % (type(ex).__name__, ex), None
                 ctx.count(('s', modname, i), hist='search:' + modname, sample={'module': modname, 'cell': c, 'eps': e} if i == 1 else None)
                 if why and (modname, why[:30]) not in seen:
                     seen.add((modname, why[:30]))
